@@ -119,8 +119,18 @@ Definition hv (s : stream) : N * bool * bytes * N := (st_id s, st_headersFinishe
 Definition close_ok (k : bool) (x : stream) : Prop :=
   k = true -> st_headersFinished x = false -> st_weReset x = true \/ st_responded x = true.
 
+(* what a stream has collected of its request (C01): only frames of the stream itself may change it *)
+Definition rqv (s : stream) :=
+  (st_pMethod s, st_pScheme s, st_pPath s, st_pAuth s, st_regularSeen s, st_contentLength s, st_hasCL s,
+   st_headerListSize s, st_path s, st_req s, st_recvBody s).
+
+Section TR.
+(* the stream the step is about (the frame's stream id) *)
+Variable own : N.
+
 (* k = true: strict, the last clause is tracked as well *)
 Definition tr (k : bool) (s x : stream) : Prop :=
+  (st_id s <> own -> rqv x = rqv s) /\
   hv x = hv s /\
   sstate_rank (st_state s) <= sstate_rank (st_state x) /\
   (st_responded s = true -> st_responded x = true) /\
@@ -134,7 +144,9 @@ Proof. unfold tr. repeat split; auto; lia. Qed.
 
 Lemma tr_trans k a b c : tr k a b -> tr k b c -> tr k a c.
 Proof.
-  unfold tr, hv. intros (A1 & A2 & A3 & A4 & A5 & A6 & A7) (B1 & B2 & B3 & B4 & B5 & B6 & B7).
+  unfold tr, hv. intros (A0 & A1 & A2 & A3 & A4 & A5 & A6 & A7) (B0 & B1 & B2 & B3 & B4 & B5 & B6 & B7).
+  assert (Ei : st_id b = st_id a) by (inversion A1; reflexivity).
+  split; [intro NO; rewrite B0, A0; [reflexivity | exact NO | rewrite Ei; exact NO]|].
   inversion A1 as [[Ai Ah Ap Ab]]. inversion B1 as [[Bi Bh Bp Bb]].
   split; [congruence|]. split; [lia|]. split; [auto|]. split; [|split; [|split; [auto|]]].
   - intro H. destruct (B4 H) as [H1|[H1 H2]].
@@ -148,13 +160,13 @@ Proof.
 Qed.
 
 Lemma tr_id k s x : tr k s x -> st_id x = st_id s.
-Proof. intros [H _]. inversion H. reflexivity. Qed.
+Proof. intros (_ & H & _). inversion H. reflexivity. Qed.
 Lemma tr_hf k s x : tr k s x -> st_headersFinished x = st_headersFinished s.
-Proof. intros [H _]. inversion H. reflexivity. Qed.
+Proof. intros (_ & H & _). inversion H. reflexivity. Qed.
 Lemma tr_prev k s x : tr k s x -> st_prev x = st_prev s.
-Proof. intros [H _]. inversion H. reflexivity. Qed.
+Proof. intros (_ & H & _). inversion H. reflexivity. Qed.
 Lemma tr_bf k s x : tr k s x -> st_blockFields x = st_blockFields s.
-Proof. intros [H _]. inversion H. reflexivity. Qed.
+Proof. intros (_ & H & _). inversion H. reflexivity. Qed.
 Lemma tr_responded k s x : tr k s x -> st_responded s = true -> st_responded x = true.
 Proof. unfold tr. tauto. Qed.
 
@@ -164,7 +176,9 @@ Ltac tr_tac := unfold tr, hv; cbn; repeat split; auto; try lia.
 Lemma tr_set_weReset k s : tr k s (set_weReset s). Proof. tr_tac. Qed.
 Lemma tr_set_window k s w : tr k s (set_window s w). Proof. tr_tac. Qed.
 Lemma tr_set_snd k s n : tr k s (set_snd s n). Proof. tr_tac. Qed.
-Lemma tr_set_recv k s r q : tr k s (set_recv s r q). Proof. tr_tac. Qed.
+Lemma tr_set_recv k s r q : st_id s = own -> tr k s (set_recv s r q). Proof. intro E. tr_tac; try (intro NE; congruence). Qed.
+Lemma tr_rqv k s x : tr k s x -> st_id s <> own -> rqv x = rqv s.
+Proof. unfold tr. tauto. Qed.
 Lemma tr_done_flags k s : tr k s (set_flags s (st_responded s) false (st_abandoned s)).
 Proof. tr_tac; try (intro; discriminate). Qed.
 Lemma tr_respond k s r a : st_headersFinished s = true -> 3 <= sstate_rank (st_state s) -> tr k s (set_flags s true r a).
@@ -196,7 +210,7 @@ Definition P (idp : N -> Prop) (s : stream) : Prop :=
 
 Lemma P_tr idp s x : P idp s -> tr true s x -> P idp x.
 Proof.
-  unfold P, tr, hv. intros (P1 & P2 & P3 & P4 & P5) (T1 & T2 & T3 & T4 & T5 & T6 & T7). inversion T1 as [[Ti Th Tp Tb]].
+  unfold P, tr, hv. intros (P1 & P2 & P3 & P4 & P5) (_ & T1 & T2 & T3 & T4 & T5 & T6 & T7). inversion T1 as [[Ti Th Tp Tb]].
   split; [|split; [|split; [|split]]].
   - rewrite Th, Tp. assumption.
   - intro H. destruct (T4 H) as [H1|[H1 H2]].
@@ -241,9 +255,13 @@ Proof.
   destruct (IH I) as (s & Is & T). exists s. split; [right|]; assumption.
 Qed.
 
+End TR.
+
 (* ---------- connection-level ---------- *)
 Section Moves.
 Variable hstate : Type.
+Variable own : N.
+Local Notation tr := (tr own).
 Notation sconn := (sconn hstate).
 Implicit Types c : sconn.
 
@@ -520,10 +538,10 @@ Proof.
   - unfold hsame in S. destruct S as (_ & E1 & _ & _ & E2 & E3 & E4 & E5 & _). destruct H.
     constructor; rewrite ?E1, ?E2, ?E3, ?E4, ?E5; assumption.
   - destruct H. constructor; sc_cbn; auto.
-    + rewrite (Forall2_tr_ids _ _ _ F). assumption.
+    + rewrite (Forall2_tr_ids _ _ _ _ F). assumption.
     + eapply Forall2_tr_P; eassumption.
-    + intros y I. destruct (Forall2_tr_In _ _ _ _ F I) as (s & Is & Ts). rewrite (tr_id _ _ _ Ts). auto.
-    + rewrite (Forall2_tr_ids _ _ _ F). assumption.
+    + intros y I. destruct (Forall2_tr_In _ _ _ _ _ F I) as (s & Is & Ts). rewrite (tr_id _ _ _ _ Ts). auto.
+    + rewrite (Forall2_tr_ids _ _ _ _ F). assumption.
   - destruct H. pose proof (close_stream_discard c x) as CD.
     pose proof (strms_search_In _ _ _ SS) as [Is Eid].
     constructor; rewrite ?sc_strms_close_stream; sc_rw; auto.
@@ -570,8 +588,8 @@ Proof.
     unfold carry_at; sc_rw; auto.
   - unfold hsame in S. destruct S as (_ & E1 & E2 & E3 & E4 & _). rewrite E1, E2, E3, E4. auto.
   - sc_cbn. destruct (sc_discardID c =? cur); [auto|].
-    pose proof (Forall2_tr_search _ _ _ cur F) as FS. destruct (strms_search (sc_strms c) cur) as [s|]; [|discriminate].
-    destruct FS as (x & -> & T). rewrite (tr_hf _ _ _ T), (tr_bf _ _ _ T), (tr_prev _ _ _ T). auto.
+    pose proof (Forall2_tr_search _ _ _ _ cur F) as FS. destruct (strms_search (sc_strms c) cur) as [s|]; [|discriminate].
+    destruct FS as (x & -> & T). rewrite (tr_hf _ _ _ _ T), (tr_bf _ _ _ _ T), (tr_prev _ _ _ _ T). auto.
   - pose proof (close_stream_discard c x) as CD. rewrite sc_strms_close_stream.
     pose proof (strms_search_In _ _ _ SS) as [Is Eid].
     assert (Px : P (eq cur) x). { eapply P_tr; [|exact T]. destruct H. rewrite Forall_forall in hi_P0. auto. }
@@ -586,12 +604,12 @@ Proof.
       destruct (N.eq_dec (st_id x) cur) as [Ex|Nx].
       * (* the stream in the middle of its block is closed: it was reset, the carry moves to the registers *)
         rewrite Ex in SS. rewrite SS in S0. inversion S0; subst s0.
-        assert (Hx : st_headersFinished x = false) by (rewrite (tr_hf _ _ _ T); assumption).
+        assert (Hx : st_headersFinished x = false) by (rewrite (tr_hf _ _ _ _ T); assumption).
         assert (Wx : st_weReset x = true).
         { destruct (W eq_refl Hx) as [Wx|Rx]; [assumption|]. destruct Px as (_ & P2 & _). destruct (P2 Rx). congruence. }
         rewrite Wx, Hx in CD. replace (sc_discardID c =? st_id x) with false in CD by lia. cbn [andb negb] in CD.
         inversion CD as [[E1 E2 E3]]. rewrite E1, E2, E3. replace (st_id x =? cur) with true by lia.
-        rewrite (tr_bf _ _ _ T), (tr_prev _ _ _ T). assumption.
+        rewrite (tr_bf _ _ _ _ T), (tr_prev _ _ _ _ T). assumption.
       * destruct (st_weReset x && negb (st_headersFinished x) && negb (sc_discardID c =? st_id x))%bool eqn:Fire.
         -- exfalso. apply andb_prop in Fire. destruct Fire as [Fire F3]. apply andb_prop in Fire. destruct Fire as [_ F2].
            destruct Px as (_ & _ & _ & P4 & _). apply negb_true_iff in F2. specialize (P4 F2). congruence.
@@ -608,8 +626,90 @@ Proof.
   apply IH; [eapply hmv_HInv; eassumption | assumption | eapply hmv_carry; eassumption].
 Qed.
 
+(* C01 / C09 (c): a step about stream `own` leaves alone what the other streams have collected of their
+   requests (rqv) and where they are in their header blocks (hv) *)
+Definition oth c c' : Prop :=
+  forall x, In x (sc_strms c') -> st_id x <> own ->
+  exists s, In s (sc_strms c) /\ st_id s = st_id x /\ rqv x = rqv s /\ hv x = hv s.
+
+Lemma oth_refl c : oth c c.
+Proof. intros x Ix _. exists x. auto. Qed.
+Lemma oth_trans a b c : oth a b -> oth b c -> oth a c.
+Proof.
+  intros H1 H2 x Ix NO. destruct (H2 x Ix NO) as (s & Is & Ei & Er & Eh).
+  destruct (H1 s Is) as (s' & Is' & Ei' & Er' & Eh'); [congruence|]. exists s'. repeat split; congruence.
+Qed.
+Lemma oth_same_strms c c' : sc_strms c' = sc_strms c -> oth c c'.
+Proof. intros E x Ix _. rewrite E in Ix. exists x. auto. Qed.
+Lemma oth_put c x : st_id x = own -> oth c (put c x).
+Proof.
+  intros E y Iy NO. rewrite sc_strms_put in Iy. destruct (strms_put_In _ _ _ Iy) as [->|Iy']; [congruence|]. exists y. auto.
+Qed.
+
+Lemma hmv_other k a b : hmv k a b -> sc_sl_done b = false -> oth a b.
+Proof.
+  intros M Hd x Ix NO. destruct M as [c c' S|c l F|c s0 x0 SS T W|c id w Hid|c sid Hs|c sid code|c Hc|c|c c' _ _ D _ _].
+  - unfold hsame in S. destruct S as (_ & _ & _ & _ & E & _). rewrite E in Ix. exists x. auto.
+  - sc_cbn_in Ix. destruct (Forall2_tr_In _ _ _ _ _ F Ix) as (s & Is & T). exists s. split; [exact Is|].
+    split; [symmetry; eapply tr_id; exact T|]. split; [|destruct T as (_ & T1 & _); exact T1].
+    eapply tr_rqv; [exact T|]. rewrite <- (tr_id _ _ _ _ T). exact NO.
+  - rewrite sc_strms_close_stream in Ix. exists x. split; [eapply strms_del_In; exact Ix | auto].
+  - rewrite sc_strms_mark_closed in Ix. exists x. auto.
+  - sc_cbn_in Ix. exists x. auto.
+  - rewrite sc_strms_write_goaway in Ix. exists x. auto.
+  - cbn in Hd. discriminate.
+  - cbn in Hd. discriminate.
+  - congruence.
+Qed.
+
+Lemma hmvs_other k a b : hmvs k a b -> sc_sl_done b = false -> oth a b.
+Proof.
+  induction 1 as [|a b c M MS IH]; intros Hd; [apply oth_refl|].
+  assert (Hb : sc_sl_done b = false).
+  { destruct (sc_sl_done b) eqn:E; [|reflexivity]. rewrite (hmvs_sl_done_mono _ _ _ MS E) in Hd. discriminate. }
+  eapply oth_trans; [eapply hmv_other; eassumption | apply IH; exact Hd].
+Qed.
+
+(* the moves never add a stream to the table *)
+Lemma hmv_ids k a b : hmv k a b -> sc_sl_done b = false -> forall x, In x (sc_strms b) -> In (st_id x) (map st_id (sc_strms a)).
+Proof.
+  intros M Hd x Ix. destruct M as [c c' S|c l F|c s0 x0 SS T W|c id w Hid|c sid Hs|c sid code|c Hc|c|c c' _ _ D _ _].
+  - unfold hsame in S. destruct S as (_ & _ & _ & _ & E & _). rewrite E in Ix. apply in_map. exact Ix.
+  - sc_cbn_in Ix. rewrite <- (Forall2_tr_ids _ _ _ _ F). apply in_map. exact Ix.
+  - rewrite sc_strms_close_stream in Ix. apply in_map. eapply strms_del_In. exact Ix.
+  - rewrite sc_strms_mark_closed in Ix. apply in_map. exact Ix.
+  - sc_cbn_in Ix. apply in_map. exact Ix.
+  - rewrite sc_strms_write_goaway in Ix. apply in_map. exact Ix.
+  - cbn in Hd. discriminate.
+  - cbn in Hd. discriminate.
+  - congruence.
+Qed.
+
+Lemma hmvs_ids k a b : hmvs k a b -> sc_sl_done b = false -> forall x, In x (sc_strms b) -> In (st_id x) (map st_id (sc_strms a)).
+Proof.
+  induction 1 as [|a b c M MS IH]; intros Hd x Ix; [apply in_map; exact Ix|].
+  assert (Hb : sc_sl_done b = false).
+  { destruct (sc_sl_done b) eqn:E; [|reflexivity]. rewrite (hmvs_sl_done_mono _ _ _ MS E) in Hd. discriminate. }
+  specialize (IH Hd x Ix). apply in_map_iff in IH. destruct IH as (y & Ey & Iy). rewrite <- Ey.
+  eapply hmv_ids; eassumption.
+Qed.
+
+(* sc_highestID only grows *)
+Lemma hmv_highest k a b : hmv k a b -> sc_sl_done b = false -> sc_highestID a <= sc_highestID b.
+Proof.
+  intros M Hd. destruct M as [c c' S|c l F|c s0 x0 SS T W|c id w Hid|c sid Hs|c sid code|c Hc|c|c c' _ _ D _ _]; sc_rw; try lia.
+  unfold hsame in S. destruct S as (_ & _ & _ & _ & _ & _ & _ & E & _). lia.
+Qed.
+Lemma hmvs_highest k a b : hmvs k a b -> sc_sl_done b = false -> sc_highestID a <= sc_highestID b.
+Proof.
+  induction 1 as [|a b c M MS IH]; intros Hd; [lia|].
+  assert (Hb : sc_sl_done b = false).
+  { destruct (sc_sl_done b) eqn:E; [|reflexivity]. rewrite (hmvs_sl_done_mono _ _ _ MS E) in Hd. discriminate. }
+  pose proof (hmv_highest _ _ _ M Hb). specialize (IH Hd). lia.
+Qed.
+
 End Moves.
 
 Arguments oext {hstate}. Arguments base {hstate}. Arguments hsame {hstate}. Arguments closing_eff {hstate}.
 Arguments done_eff {hstate}. Arguments eff {hstate}. Arguments hmv {hstate}. Arguments hmvs {hstate}. Arguments carry_at {hstate}.
-Arguments HInv {hstate}.
+Arguments HInv {hstate}. Arguments oth {hstate}.
